@@ -623,6 +623,7 @@ func (s *segment) Delete() error {
 			return err
 		}
 	}
+	crashPoint("delete:log-removed")
 	if exists(s.Index.Name()) {
 		if err := os.Remove(s.Index.Name()); err != nil {
 			return err
